@@ -66,7 +66,7 @@ def run(ctx):
                 'x polling / WebSocket open x JSONP, on both servers, sampled; a case is one open request. distinct = distinct (server, configuration, outcome, open kind)')
     rng = ctx.rng
     oterms, ocases, cterms, ccases = [], [], [], []
-    n = ctx.n(260, 2500)
+    n = ctx.n(260, 10000)
     for drv_kind in ('threaded', 'asyncio'):
         for _ in range(n // 2):
             I = rng.choice([25 * 1024, 1536, 512, 2560, 1024, 1024 + 256, 100])
